@@ -154,7 +154,14 @@ func (h *hist) program() string {
 	return strings.Join(s, " ")
 }
 
+var lawSeen = map[string]int{}
+
 func (h *hist) law(name string, c map[string]interface{}) {
+	lawSeen[name]++
+	if lawSeen[name] > 40 { // enough witnesses of one law in the replay file; keep counting
+		h.o.Count("law_fail_not_listed:" + name)
+		return
+	}
 	c["history"] = h.seedTag
 	c["table"] = map[bool]string{true: "t.csv (file)", false: "t (temporary)"}[h.file]
 	c["program"] = h.program()
@@ -467,7 +474,7 @@ func (h *hist) stepOpen() {
 		impl = errTok(err)
 	}
 	h.o.Case(fmt.Sprintf("c16.open %s %d", name, len(rows))+joinPrefixed(rows), impl)
-	want, lawName, st := "ok", "open", "closed"
+	want, lawName, st := "ok", "open_close_cycle", "closed"
 	switch {
 	case !exists:
 		want, lawName, st = "E11002", "undeclared_error", "undeclared"
